@@ -266,6 +266,7 @@ Definition can_move (s : state) (t : tid) : bool := enabled s (t, BChan) || enab
    wait for ctx); waitUntilSizeIsBelow(1) } *)
 Inductive trad : list pop -> Prop :=
 | trad_nil : trad []
+| trad_eos : trad [Push nilSeg]      (* a reload shows ENDLIST right after the last downloaded segment *)
 | trad_end : forall id, trad [Push id; Push nilSeg]
 | trad_cons : forall id f r, trad r -> trad (Push id :: WaitBelow f 1 :: r).
 
